@@ -16,7 +16,7 @@ from collections import Counter
 import eqlmc  # noqa: F401
 
 from .. import qast as Q
-from ..common import eval_twice, is_exc
+from ..common import eval_twice, eval_after_abandoned, is_exc
 from ..isolate import run_isolated
 from ..worlds import build_world
 from . import c02, c03, c10, c12, c15, c16
@@ -95,7 +95,7 @@ def observe(fam, c, inst, caching):
             out, exp = c12.join_make_and_eval_twice(c + (caching,), inst)
         else:
             out, exp = c12.make_and_eval_twice(c + (caching,), inst)
-        return [o if is_exc(o) or (o and o[0] == "build") else sorted(Counter(o).items()) for o in out], True
+        return [o if is_exc(o) or (o and o[0] == "build") else sorted(Counter(o).items()) for o in out], True, 2
     if fam == "c02":
         q, wspec, pre = c02.query_of(c), c02.world_of(c), ()
         allsel = {v[0] for v in q[5]} <= {s[1] for s in q[3] if s[0] == "v"}
@@ -122,8 +122,11 @@ def observe(fam, c, inst, caching):
         for q in qs:
             world = build_world(wspec, inst)
             out.extend(eval_twice(q, world, inst, predeclare=pre))
+            # built afresh: a first evaluation that is closed after one result, then a full evaluation
+            world = build_world(wspec, inst)
+            out.append(eval_after_abandoned(q, world, inst, predeclare=pre))
         return out
-    return run_isolated(body, caching=caching), allsel
+    return run_isolated(body, caching=caching), allsel, 3
 
 
 def as_set(o):
@@ -134,15 +137,16 @@ def run_case(case, inst):
     fam, c = case
     _wrap_retrieve()
     _HITS[0] = 0
-    on, allsel = observe(fam, c, inst, True)
+    on, allsel, g = observe(fam, c, inst, True)
     hits = _HITS[0]
-    off, _ = observe(fam, c, inst, False)
-    names = [f"on/eval{i % 2 + 1}" + (f"/q{i // 2 + 1}" if len(on) > 2 else "") for i in range(len(on))]
+    off, _, _ = observe(fam, c, inst, False)
     res = {"ok": True, "transitions": len(on) + len(off), "tags": [f"family={fam}", "served_from_cache" if hits else "no_cache_entry_served"],
            "outcome": None}
     nonempty = False
-    for i in range(0, len(on), 2):
+    for i in range(0, len(on), g):
         group = [("on/eval1", on[i]), ("on/eval2", on[i + 1]), ("off/eval1", off[i]), ("off/eval2", off[i + 1])]
+        if g == 3:
+            group += [("on/after-abandoned-evaluation", on[i + 2]), ("off/after-abandoned-evaluation", off[i + 2])]
         ref_name, ref = group[2]         # uncached first evaluation is the reference configuration
         if not is_exc(ref) and ref and ref[0] != "build":
             nonempty = nonempty or len(ref) > 0
@@ -167,4 +171,5 @@ def describe(case, inst):
     except Exception as e:
         src = f"<{e}>"
     return (f"# family {fam}: the query below, built afresh under enable_caching() and under disable_caching(), evaluated "
-            f"twice each; the four results must be equal\n" + src)
+            f"twice each (and, built once more, evaluated after a first evaluation that was closed after one result); all "
+            f"results must be equal\n" + src)
